@@ -86,6 +86,12 @@ pub fn wx(f: &[&str], merged: bool) -> String {
     for c in cs {
         let chunk = &data[prev..c];
         prev = c;
+        if c % 2 == 1 {
+            // the state is a value: go on with a clone
+            let copy = st.clone();
+            assert!(copy == st, "Clone / PartialEq for WinconBytes");
+            st = copy;
+        }
         chunks.push(st.extract_next(chunk).collect());
     }
     if cs_len_one {
